@@ -151,11 +151,25 @@ class C05(core.Check):
                 script2 = engine.gen_script(rr, spot=kind == 'spot')
             problems = []
             holder = {}
+            # isolated margin at high leverage: the simulator's own force-closing orders have a lifecycle too
+            lev = rr.choice([25, 50, 100]) if kind == 'futures' and rr.random() < 0.35 else 2
+
+            seen_status = {}
 
             def observer(strategy, hook, order=None):
-                if hook not in ('before', 'after', 'on_close_position', 'on_open_position') or problems:
+                if problems:
                     return
                 tr = holder['tr']
+                # at EVERY hook: a status is one of the three lifecycle states, and a final one never changes again
+                # (whoever writes it: Order.execute / cancel, or any other code that holds the order)
+                for k, o in enumerate(tr.orders):
+                    prev = seen_status.get(k)
+                    if o.status not in ('ACTIVE', 'EXECUTED', 'CANCELED') or (prev in ('EXECUTED', 'CANCELED') and o.status != prev):
+                        problems.append(('status-changed-after-final', strategy.index, {'order': k, 'hook': hook, 'was': prev, 'is': o.status}, prev))
+                        return
+                    seen_status[k] = o.status
+                if hook not in ('before', 'after', 'on_close_position', 'on_open_position'):
+                    return
                 key = f'{strategy.exchange}-{strategy.symbol}'
                 reg = [tr.ordinals.get(id(o)) for o in store.orders.active_storage.get(key, []) if o.is_active]
                 want = [k for k, o in enumerate(tr.orders) if o.symbol == strategy.symbol and o.status == 'ACTIVE']
@@ -172,10 +186,12 @@ class C05(core.Check):
             err = None
             with tr:
                 try:
-                    bt.run(bt.config(kind=kind, balance=100_000, fee=0.001, leverage=2), classes, [], cands, fast_mode=fast)
+                    bt.run(bt.config(kind=kind, balance=100_000, fee=0.001, leverage=lev, mode='isolated' if lev > 2 else 'cross'),
+                           classes, [], cands, fast_mode=fast)
                 except Exception as e:  # noqa
                     err = e
-            desc = {'seed': seed, 'kind': kind, 'timeframe': tf, 'fast': fast, 'n': n, 'script': script}
+            desc = {'seed': seed, 'kind': kind, 'timeframe': tf, 'fast': fast, 'n': n, 'script': script, 'leverage': lev}
+            res.count('liquidations', (tr.final or {}).get('liquidations', 0))
             if two:
                 desc['script2'] = script2
                 res.count('sessions:two-routes')
@@ -204,13 +220,24 @@ class C05(core.Check):
             if problems:
                 bad = (problems[0][0], {'strategy_index': problems[0][1], 'registry': problems[0][2], 'expected': problems[0][3]})
             if tr.final is not None and bad is None:
+                # after the run: the statuses the run ended with are still lifecycle states, final ones as last seen,
+                # and every order recorded in a trade is an EXECUTED one
+                for k, st in enumerate(tr.final['order_status']):
+                    prev = seen_status.get(k)
+                    if st not in ('ACTIVE', 'EXECUTED', 'CANCELED') or (prev in ('EXECUTED', 'CANCELED') and st != prev):
+                        bad = ('status-changed-after-final', {'order': k, 'was': prev, 'is': st, 'at': 'end of run'})
+                        break
+            if tr.final is not None and bad is None:
                 count = {}
                 for tdict in tr.final['trades'] + list(tr.final['temp_trades'].values()):
                     for k in tdict['orders']:
                         count[k] = count.get(k, 0) + 1
-                for k, o in enumerate(tr.orders):
-                    if o.status == 'EXECUTED' and count.get(k, 0) != 1:
+                for k, st in enumerate(tr.final['order_status']):
+                    if st == 'EXECUTED' and count.get(k, 0) != 1:
                         bad = ('executed-order-not-in-exactly-one-trade', {'order': k, 'times': count.get(k, 0)})
+                        break
+                    if st != 'EXECUTED' and count.get(k, 0) != 0:
+                        bad = ('trade-records-an-order-that-is-not-executed', {'order': k, 'status': st, 'times': count.get(k, 0)})
                         break
             if bad:
                 res.fail(**{'class': 'lifecycle/' + bad[0] + ('/fast' if fast else '/step'), 'input': desc, 'observed': bad[1],
